@@ -136,6 +136,10 @@ class StateDom(object):
         """Value of expression e: a concrete python value or UNK."""
         if isinstance(e, ast.Constant):
             return e.value
+        if self._textkeys and isinstance(e, ast.Compare):
+            k = self._text(e, frame)
+            if k is not None and self._alias.get(k, k) in env:
+                return env[self._alias.get(k, k)]
         if self._textkeys and isinstance(e, ast.Attribute) and \
                 dotted(e) is None:
             k = self._text(e, frame)
@@ -211,7 +215,8 @@ class StateDom(object):
                 return x if (x is not UNK and y is not UNK and x == y) \
                     else UNK
             return self.ev(e.body if t else e.orelse, env, frame)
-        if self._textkeys and (isinstance(e, (ast.Call, ast.Subscript)) or (
+        if self._textkeys and (isinstance(e, (ast.Call, ast.Subscript,
+                                              ast.Compare)) or (
                 isinstance(e, ast.Attribute) and dotted(e) is None)):
             k = self._text(e, frame)
             if k is not None:
@@ -417,8 +422,8 @@ class StateDom(object):
         doms = [tuple(d) for _k, d in variables]
         self._ghost = set(ghost or ())
         self._alias = dict(alias or {})
-        self._textkeys = any(('(' in k or '[' in k) for k in keys) or \
-            bool(self._alias)
+        self._textkeys = any(('(' in k or '[' in k or ' ' in k)
+                             for k in keys) or bool(self._alias)
         frame = Frame(func.module, {}, None, func)
         if init is None:
             start = set(itertools.product(*doms))
@@ -514,7 +519,13 @@ class StateDom(object):
                 attr = sub.func.attr if isinstance(sub.func, ast.Attribute) \
                     else (sub.func.id if isinstance(sub.func, ast.Name)
                           else None)
-                if attr in KILL_CALL_ATTRS:
+                if attr == 'refresh' and sub.args and dotted(sub.args[0]):
+                    # refresh(x) reloads the attributes of x only
+                    root = dotted(sub.args[0])
+                    for k in keys:
+                        if k.startswith(root + '.') and k not in newvals:
+                            havoc.add(k)
+                elif attr in KILL_CALL_ATTRS:
                     for k in keys:
                         if k.endswith('.state') and k not in newvals:
                             havoc.add(k)
